@@ -18,12 +18,11 @@ import ast
 
 from core.cfg import always_exits
 from core.inline_stmt import inline_view
-from core.loader import FuncInfo, header, norm, own_nodes, parent
+from core.loader import FuncInfo, header, norm, parent
+from core.types import members
 
 from .c09_eval import POISON, Env, Evaluator, Frame, NativeObj, Raised, Unknown, _Break, _Continue, _Return
 from .common import where
-
-from core.types import members
 
 IMPORT_PAIRS = (
     ("proj.core.api.handlers", "proj.core.api_v2.schema"),
